@@ -279,12 +279,15 @@ func vC12GenExecCase(t *testing.T, r *vRand, c *vC12Cfg, o int, opt vC12GenOpt) 
 	// opt.prefer: the chain the injected field / the conformant fields should be about when possible
 	pickUnread := func() uint64 {
 		x := vPick(r, unread)
-		for _, u := range unread {
+		if opt.prefer == 0 {
+			return x
+		}
+		for _, u := range rd {
 			if u == opt.prefer {
-				return u
+				return x
 			}
 		}
-		return x
+		return opt.prefer // not read by the observer now (possibly no longer configured at all)
 	}
 	sub := func(xs []uint64) []uint64 {
 		out := vC12Subset(r, xs)
